@@ -15,6 +15,11 @@ func (a *LimitPlanner) Process(ctx *shared.PlannerContext,
 			return nil
 		},
 		OnAfterEntriesSlice: func(entries []shared.LogEntry, c chan []shared.LogEntry) error {
+			if limit == 0 {
+				// no limit requested (query_range without `limit`, tail): everything, as on the ClickHouse path
+				c <- entries
+				return nil
+			}
 			if sent >= limit {
 				return nil
 			}
